@@ -22,7 +22,7 @@ def gen_interfere(r, tier):
     ncases = 200 if tier == "quick" else 3000
     for _ in range(ncases):
         pm, resp = readsback_map(r)
-        kind = r.pick(["hwmon", "hwmon", "file"])
+        kind = streams.pick_world_kind(r, base=("hwmon", "hwmon", "file"))
         lo, hi = streams.gen_limits(r)
         ns = r.below(2)
         toks = [f"kind={kind}", f"ns={ns}", "win=10", f"map={streams.int_map_tok(pm)}", streams.loop_tok(r),
@@ -35,7 +35,7 @@ def gen_interfere(r, tier):
         ops.append("w.new " + " ".join(toks))
         now = r.range(1, 10**12)
         curve = r.range(0, 255)
-        ncyc = r.range(2, 30)
+        ncyc = r.range(2, 30 if kind != "cmd" else 12)   # cmd fans: every cycle is a few real process executions
         at = r.range(0, ncyc - 1)
         for c in range(ncyc):
             if c == at or r.chance(0.1):
@@ -58,7 +58,7 @@ class C05(Prop):
     id = "C05"
     lean_modules = ["Fan2go.Props.C05"]
     fact_modules = ["Fan2go.Props.Facts"]
-    rule = ("interfere: controller worlds whose PWM map reads back (identity, sparse identity, idempotent quantiser with a "
+    rule = ("interfere: controller worlds (hwmon / file / cmd fans, cmd = real scripts and processes) whose PWM map reads back (identity, sparse identity, idempotent quantiser with a "
             "matching device) x every loop x curve trajectories, with an external change of mode in {0,2,3} and/or PWM 0..255 "
             "before a random cycle index (plus random extra ones). non-trivial = distinct (kind, map shape, loop, interference "
             "kind, cycle index bucket)")
